@@ -36,7 +36,7 @@ func (c14) RequiredBuckets(tier string) []string {
 	for _, k := range c14Commands {
 		out = append(out, "cmd:"+k, "hit:"+k)
 	}
-	out = append(out, "shape:a,b,a,b", "aspect:command", "input:multi-MiB", "input:regular-file-stdin", "shape:a,a", "shape:a,a',a", "shape:-o", "shape:bad,bad", "aspect:option", "aspect:positional", "aspect:secondary-input", "aspect:primary-input", "aspect:format", "help-crosscheck")
+	out = append(out, "shape:a,b,a,b", "aspect:command", "input:multi-MiB", "input:regular-file-stdin", "output:unwritable", "shape:a,a", "shape:a,a',a", "shape:-o", "shape:bad,bad", "aspect:option", "aspect:positional", "aspect:secondary-input", "aspect:primary-input", "aspect:format", "help-crosscheck")
 	return out
 }
 func (c14) Findings() []fw.Finding { return nil }
@@ -104,7 +104,9 @@ func (x *c14run) exec(env *cli.Env, v inv, nocache bool) outcome {
 		os.WriteFile(env.File(n), x.inputs[k], 0644)
 	}
 	args := append([]string{}, v.args...)
-	if v.out != "" {
+	if v.out == "/dev/full" {
+		args = append(args, "-o", v.out)
+	} else if v.out != "" {
 		os.Remove(env.File(v.out))
 		args = append(args, "-o", v.out)
 	}
@@ -124,7 +126,9 @@ func (x *c14run) exec(env *cli.Env, v inv, nocache bool) outcome {
 	if r.Signaled {
 		o.bad = "signaled"
 	}
-	if v.out != "" {
+	if v.out == "/dev/full" {
+		// every write fails with ENOSPC: only the exit status and stdout count.
+	} else if v.out != "" {
 		b, err := os.ReadFile(env.File(v.out))
 		if err == nil {
 			o.out = append(append([]byte("<file>"), b...), append([]byte("<stdout>"), r.Stdout...)...)
@@ -282,15 +286,17 @@ func c14Plans() []cmdPlan {
 		plans = append(plans, cmdPlan{name, b, n, []string{"format"}})
 	}
 	{
-		b := mk("search", "@gattaca")
+		b := mk("search", "@gagttttatc")
 		n := fmtN(b)
-		n = append(n, neighbour{"positional", "query literal", mk("search", "@gattacc")}, neighbour{"option", "-k", with(b, "-k", "primer_bind")}, neighbour{"option", "-q", with(b, "-q", "note=hit")},
-			neighbour{"option", "-e", with(mk("search", "@gattnca"), "-e")}, neighbour{"option", "--no-complement", with(b, "--no-complement")})
+		n = append(n, neighbour{"positional", "query literal", mk("search", "@cgcagaagtt")}, neighbour{"option", "-k", with(b, "-k", "primer_bind")}, neighbour{"option", "-q", with(b, "-q", "note=hit")},
+			neighbour{"option", "-e", with(mk("search", "@gagttnnatc"), "-e")}, neighbour{"option", "--no-complement", with(b, "--no-complement")})
 		plans = append(plans, cmdPlan{"search", b, n, []string{"format", "key", "qualifier", "exact", "no-complement"}})
 		b2 := file(mk("search", "q.fa"), "q.fa", "query1.fasta")
 		plans = append(plans, cmdPlan{"search", b2, []neighbour{{"secondary-input", "query file content changed", file(b2, "q.fa", "query2.fasta")}, {"option", "-e", with(b2, "-e")},
 			{"secondary-input", "query file split into two records (same residues)", file(b2, "q.fa", "query-split.fasta")}}, nil})
-		b3 := mk("search", "@gattnca")
+		// a literal query and a query file that holds the same letters and nothing else.
+		plans = append(plans, cmdPlan{"search", b, []neighbour{{"secondary-input", "a query file holding just the literal's letters", file(mk("search", "q-bare.txt"), "q-bare.txt", "query-bare.txt")}}, nil})
+		b3 := mk("search", "@gagttnnatc")
 		plans = append(plans, cmdPlan{"search", b3, []neighbour{{"option", "-e on ambiguous query", with(b3, "-e")}}, nil})
 	}
 	{
@@ -310,6 +316,24 @@ func c14Plans() []cmdPlan {
 		n := []neighbour{{"option", "-F", with(b, "-F")}, {"option", "-Q", with(b, "-Q")}, {"primary-input", "other input", stdin(b, "pbat5.gb")}}
 		plans = append(plans, cmdPlan{"summary", b, n, []string{"no-feature", "no-qualifier"}})
 	}
+	// options whose effect needs particular data: a multi-valued qualifier for
+	// the value separator, a hit on the other strand for --no-complement, a
+	// feature elsewhere for rotate.
+	{
+		b := stdin(mk("query", "-n", "db_xref"), "phix-multi.gb")
+		plans = append(plans, cmdPlan{"query", b, []neighbour{{"option", "-t ; on a multi-valued qualifier", with(b, "-t", ";")}, {"option", "-t ,; (invalid) on a multi-valued qualifier", with(b, "-t", ",;")}, {"option", "--empty", with(b, "--empty", "-n", "gene")}}, nil})
+		s := mk("search", "@aacttctgcg")
+		plans = append(plans, cmdPlan{"search", s, []neighbour{{"option", "--no-complement with a hit on the other strand", with(s, "--no-complement")}}, nil})
+		r := mk("rotate", "CDS")
+		plans = append(plans, cmdPlan{"rotate", r, []neighbour{{"positional", "locator elsewhere", mk("rotate", "misc_feature")}, {"positional", "locator elsewhere", mk("rotate", "2000")}}, nil})
+	}
+	// two arguments versus the same text as one argument with a blank in it.
+	plans = append(plans,
+		cmdPlan{"select", mk("select", "CDS", "gene"), []neighbour{{"positional", "two selectors vs one selector with a blank", mk("select", "CDS gene")}}, nil},
+		cmdPlan{"select", mk("select", "CDS/product=DNA", "polymerase"), []neighbour{{"positional", "two selectors vs one selector with a blank", mk("select", "CDS/product=DNA polymerase")}}, nil},
+		cmdPlan{"extract", mk("extract", "CDS", "gene"), []neighbour{{"positional", "two locators vs one locator with a blank", mk("extract", "CDS gene")}}, nil},
+		cmdPlan{"query", with(with(mk("query"), "-n", "gene"), "-n", "product"), []neighbour{{"option", "two names vs one name with a blank", with(mk("query"), "-n", "gene product")}}, nil},
+		cmdPlan{"define", with(with(mk("define", "misc_feature", "3..20"), "-q", "note=a"), "-q", "gene=x"), []neighbour{{"option", "two qualifiers vs one with a blank", with(mk("define", "misc_feature", "3..20"), "-q", "note=a gene=x")}}, nil})
 	// values that begin like the option's default (or like a valid value) and
 	// go on: rejected, or simply different - never answered from the entry of
 	// the run they resemble.
@@ -363,19 +387,28 @@ func (x *c14run) loadInputs() error {
 		"multi2.gb":            append(append(append([]byte{}, pbat...), part...), phix...),
 		"guest.fasta":          []byte(">guest one\nACGTACGTTTGACCA\n"),
 		"guest2.fasta":         []byte(">guest two\nACGTACGTTTGACCC\n"),
-		"query1.fasta":         []byte(">q\ngattaca\n"),
-		"query-split.fasta":    []byte(">q\ngatt\n>q2\naca\n"),
+		"query1.fasta":         []byte(">q\ngagttttatc\n"),
+		"query-split.fasta":    []byte(">q\ngagtt\n>q2\nttatc\n"),
 		"guest-split.fasta":    []byte(">guest one\nACGTACG\n>guest one b\nTTTGACCA\n"),
 		"guest-annot.gb":       []byte(c14GuestGB("first")),
 		"guest-annot2.gb":      []byte(c14GuestGB("second")),
 		"phix_part-relabel.gb": bytes.Replace(part, []byte("/gene=\""), []byte("/gene=\"x"), 1),
-		"query2.fasta":         []byte(">q\ngattacc\n"),
+		"query2.fasta":         []byte(">q\ncgcagaagtt\n"),
+		"query-bare.txt":       []byte("gagttttatc"),
 		"feat1.tbl":            []byte("     misc_feature    10..40\n                     /note=\"first\"\n"),
 		"feat2.tbl":            []byte("     misc_feature    10..41\n                     /note=\"second\"\n"),
 		"bad-trunc.gb":         phix[:len(phix)*2/3],
 		"bad-field.gb":         bytes.Replace(phix, []byte("FEATURES             Location/Qualifiers\n"), []byte("FEATURES             Location/Qualifiers\n     gene            oops\n"), 1),
 		"bad-second.gb":        append(append([]byte{}, part...), phix[:len(phix)/2]...),
 		"empty":                {},
+	}
+	// phiX with a second value for the /db_xref of its first gene (a multi-valued qualifier).
+	if i := bytes.Index(phix, []byte("/db_xref=\"GeneID")); i >= 0 {
+		j := i + bytes.IndexByte(phix[i:], '\n') + 1
+		line := bytes.Replace(phix[i-21:j], []byte("/db_xref=\""), []byte("/db_xref=\"extra:"), 1)
+		x.inputs["phix-multi.gb"] = append(append(append([]byte{}, phix[:j]...), line...), phix[j:]...)
+	} else {
+		x.inputs["phix-multi.gb"] = phix
 	}
 	// three FASTA records, 2.6 MB together.
 	var big bytes.Buffer
@@ -542,7 +575,13 @@ func (m c14) Run(c *fw.Ctx) {
 		for _, n := range p.neigh {
 			differ := func() bool {
 				ra, rb := x.reference(a), x.reference(n.v)
-				return ra.exit != rb.exit || !bytes.Equal(ra.out, rb.out)
+				d := ra.exit != rb.exit || !bytes.Equal(ra.out, rb.out)
+				if !d {
+					// a neighbour whose uncached output equals the base's cannot
+					// show a collision: listed so that it can be replaced.
+					c.Note(fmt.Sprintf("neighbour without visible effect: %s vs %s", a.String(), n.v.String()))
+				}
+				return d
 			}
 			if c.NextShared() {
 				x.history(p.name, "a,a',a", n.aspect, n.what, []inv{a, n.v, a}, differ())
@@ -590,6 +629,23 @@ func (m c14) Run(c *fw.Ctx) {
 			if c.NextShared() {
 				x.history(p.name, "bad,good,bad", "primary-input", "failing input "+bad+", good, failing", []inv{b, a, b, a}, true)
 			}
+		}
+	}
+	// an output that cannot be written (-o /dev/full: every write fails): the
+	// run fails with the cache cold and with the cache warm alike.
+	if _, err := os.Stat("/dev/full"); err == nil {
+		doneFull := map[string]bool{}
+		for _, p := range plans {
+			if doneFull[p.name] || p.base.stdin != "phix.gb" {
+				continue
+			}
+			doneFull[p.name] = true
+			if !c.NextShared() {
+				continue
+			}
+			a := p.base
+			x.history(p.name, "-o", "", "a ; a -o /dev/full ; a -o /dev/full ; a", []inv{a, a.withOut("/dev/full"), a.withOut("/dev/full"), a}, true)
+			c.Bucket("output:unwritable")
 		}
 	}
 	// stdin bound to a regular file (gts cmd < file), read from its start and
